@@ -690,6 +690,36 @@ func TestVerifC03(t *testing.T) {
 		} else {
 			classes = append(classes, "host-not-blocked")
 		}
+		// the kinds of lines on the list (the prelude names them by hand)
+		if len(extra) == 0 {
+			seen := map[string]bool{}
+			for _, r := range rs {
+				var k []string
+				switch {
+				case r.IsHost:
+					k = append(k, "host-plain-name")
+				default:
+					if r.White {
+						k = append(k, "host-exception-rule")
+					}
+					if len(r.DTPerm)+len(r.DTRestr) > 0 {
+						k = append(k, "host-dnstype")
+					}
+					if strings.Contains(r.Pattern, "*") {
+						k = append(k, "host-wildcard")
+					}
+					if r.Pattern != strings.ToLower(r.Pattern) {
+						k = append(k, "host-pattern-upper-case")
+					}
+				}
+				for _, c := range k {
+					if !seen[c] {
+						seen[c] = true
+						classes = append(classes, c)
+					}
+				}
+			}
+		}
 		c := vfCase{
 			Coq:        vfApp("CHost", vfRulesCoq(rs), vfBytes(host), vfN(uint64(qt)), vfBool(got)),
 			Nontrivial: len(rs) > 0,
